@@ -16,8 +16,7 @@
 (* `add' body, a function body); a definition "persists for the remainder   *)
 (* of the +->, where, add or with in which it occurs", so the use sees the  *)
 (* first `vis' definitions (vis = -1: the use stands after the scope has    *)
-(* been closed and sees none; a later definition of a name replaces an      *)
-(* earlier one).                                                            *)
+(* been closed and sees none).                                              *)
 (*                                                                          *)
 (* Expansion relation (HStep): replace an identifier that has a macro       *)
 (* definition by its right-hand side; reduce (macro ps +-> body)(args) by   *)
@@ -29,14 +28,16 @@
 (* strategy, which reaches the macro-free form whenever any strategy does): *)
 (*   "mac-circular"  expansion does not terminate: the expansion of a term  *)
 (*                   t needs the expansion of t itself (t reappears at the  *)
-(*                   head, or as an argument that is kept, while t is being *)
-(*                   expanded) -- direct and mutual recursion, recursion    *)
+(*                   head, possibly applied to further arguments, or as an  *)
+(*                   argument that is kept, while t is being expanded) --   *)
+(*                   direct and mutual recursion, recursion                 *)
 (*                   through a macro function, a parameter applied to       *)
 (*                   itself (f(x) ==> x(x) used as f(f))                    *)
 (*   "mac-argc"      a macro function meets an argument group of the wrong  *)
 (*                   length, so the application can never be reduced        *)
 (*   "mac-improper"  a macro function is left without an argument group     *)
-(*   ("fuel": the bounded search ended undecided -- no certificate)         *)
+(*   ("fuel": the bounded search ended undecided, or a visible name is      *)
+(*   defined twice -- no certificate)                                       *)
 (* In a typed context one more (exported separately, field t):              *)
 (*   "no-meaning"    the macro-free form still mentions a macro name that   *)
 (*                   is not visible at the use (used before its definition  *)
@@ -53,8 +54,9 @@
 (* set) and whose use comes from Uses; of these every DStride-th sequence   *)
 (* of definitions and every Stride-th program (by hashes, offset Seed) is   *)
 (* judged and exported (DStride = Stride = 1: all).  Scope, visibility,     *)
-(* spelling (`macro f(x) == b', `f(x) ==> b', `f ==> macro (x) +-> b') and  *)
-(* redefinition of m1 rotate with a second hash plus rot \in Rots.          *)
+(* spelling (`macro f(x) == b', `f(x) ==> b', `f ==> (macro (x) +-> b)',    *)
+(* a `macro { .. }' block) and redefinition of m1 rotate with a second hash *)
+(* plus rot \in Rots.                                                       *)
 (*                                                                          *)
 (* Design-level invariant GraphLaw: on first-order programs (no parameter   *)
 (* at a head, every parameter used, no stuck application, decided within    *)
@@ -69,6 +71,8 @@ CONSTANTS L1, L2, L3, L4,     \* shape level of the bodies of programs with 1, 2
           Stride, Seed,       \* programs those with Hash % Stride = Seed % Stride are judged and exported
           NShards, ShardNo,   \* ... by the process with (DHash \div DStride) % NShards = ShardNo
           Rots,               \* rotations of the rendering dimensions (a set of naturals)
+          VisModes,           \* subset of {"all", "hide", "mix"}: the use sees all definitions / the use stands before
+                              \* some definition or behind the scope / one of the two, by the hash
           Fuel,               \* bound on the depth of the search of Norm
           Export
 
@@ -129,8 +133,8 @@ PCode(ds, u, a, b) == FoldLeft(LAMBDA acc, d : (acc * 31 + DCode(d, a, b)) % 100
 (* the state: one program                                                   *)
 VARIABLES ds,     \* the definitions (names m1..mn in this order)
           use,    \* the use
-          rot
-vars == << ds, use, rot >>
+          rot, vm
+vars == << ds, use, rot, vm >>
 
 NDefs == {n \in 1..4 : LevelOf(n) > 0}
 D(n, i) == DefsAt(LevelOf(n), n, i)
@@ -142,7 +146,7 @@ DHash(dd) == FoldLeft(LAMBDA acc, d : (acc * 31 + DCode(d, 3, 5)) % 10007, 1, dd
 DsSelected(dd) == /\ DHash(dd) % DStride = Seed % DStride
                   /\ (DHash(dd) \div DStride) % NShards = ShardNo
 Init == /\ \E n \in NDefs : ds \in DefSeqs(n) /\ DsSelected(ds) /\ use \in Uses(LevelOf(n), n)
-        /\ rot \in Rots
+        /\ rot \in Rots /\ vm \in VisModes
 Next == UNCHANGED vars
 Spec == Init /\ [][Next]_vars
 
@@ -154,7 +158,7 @@ Selected == H1 % Stride = Seed % Stride
 \* the rendering dimensions of this program
 Scopes == << "top", "where", "add", "fn" >>
 Scope == Scopes[(H2 % 4) + 1]
-VisSel == (H2 \div 4) % 6
+VisSel == CASE vm = "all" -> 0 [] vm = "hide" -> 3 + ((H2 \div 4) % 3) [] vm = "mix" -> (H2 \div 4) % 6
 Vis == IF VisSel <= 2 THEN N
        ELSE IF VisSel = 3 THEN (IF Scope = "top" THEN N - 1 ELSE -1)
        ELSE IF Scope = "where" THEN N
@@ -162,6 +166,8 @@ Vis == IF VisSel <= 2 THEN N
 Redef == N >= 2 /\ (H2 \div 24) % 5 = 0
 Spell(i) == LET s == ((H2 \div 120) + i) % 3
             IN  IF s = 0 THEN "macro" ELSE IF s = 1 \/ ds[i].ps = << >> THEN "arrow" ELSE "lam"
+\* the definitions in front of the use are written as one `macro { a == ..; b == .. }' block (rendering only)
+Block == (H2 \div 360) % 4 = 0
 Defs == [i \in 1..N |-> [nm |-> IF Redef /\ i = N THEN "m1" ELSE ds[i].nm, ps |-> ds[i].ps, body |-> ds[i].body,
                          sp |-> Spell(i)]]
 
@@ -169,12 +175,12 @@ Defs == [i \in 1..N |-> [nm |-> IF Redef /\ i = N THEN "m1" ELSE ds[i].nm, ps |-
 (* expansion                                                                *)
 Visible == IF Vis <= 0 THEN << >> ELSE SubSeq(Defs, 1, Vis)
 EnvNames == {Visible[i].nm : i \in 1..Len(Visible)}
-\* a name defined twice: the later definition replaces the earlier one (latest = TRUE); the other reading
-\* (latest = FALSE) is evaluated as well and only what both readings certify is certified
-EnvOf(latest) == [nm \in EnvNames |-> LET I == {i \in 1..Len(Visible) : Visible[i].nm = nm}
-                                          j == CHOOSE i \in I : \A i2 \in I : IF latest THEN i2 <= i ELSE i <= i2
-                                      IN  Visible[j]]
-Env == EnvOf(TRUE)
+\* A name defined twice among the visible definitions: the guide does not say what the body of the second
+\* definition sees (the compiler expands it when it is defined, i.e. with the first definition still in force, and
+\* warns); nothing is certified for such a program (Twice).
+Env == [nm \in EnvNames |-> LET I == {i \in 1..Len(Visible) : Visible[i].nm = nm}
+                                  j == CHOOSE i \in I : \A i2 \in I : i2 <= i
+                              IN  Visible[j]]
 Twice == \E i, j \in 1..Len(Visible) : i # j /\ Visible[i].nm = Visible[j].nm
 
 RECURSIVE Subst(_, _, _)
@@ -197,15 +203,19 @@ HStep(t, env) ==
 RECURSIVE Size(_)
 Size(t) == FoldLeft(LAMBDA acc, g : FoldLeft(LAMBDA a2, u : a2 + Size(u), acc, g), 1, t.ar)
 
-\* the set of verdicts on the expansion of t; active = the terms whose macro-free form contains that of t
-RECURSIVE Norm(_, _, _, _)
-Norm(t, env, active, fuel) ==
-  IF t \in active THEN {"mac-circular"}
+\* The set of verdicts on the expansion of t.  chain = the terms met at the head since the expansion of this
+\* (sub)term began: all have the same macro-free form as t; active = the terms whose macro-free form contains that
+\* of t as a proper part.  Meeting t again in either set, or meeting at the head a term of the chain with further
+\* argument groups appended (a head step does not look at the groups behind the first), shows that there is none.
+Extends(t, c) == /\ c.hd = t.hd /\ Len(c.ar) <= Len(t.ar) /\ SubSeq(t.ar, 1, Len(c.ar)) = c.ar
+RECURSIVE Norm(_, _, _, _, _)
+Norm(t, env, active, chain, fuel) ==
+  IF t \in active \/ \E c \in chain : Extends(t, c) THEN {"mac-circular"}
   ELSE IF fuel = 0 \/ Size(t) > 24 THEN {"fuel"}
   ELSE LET r == HStep(t, env)
-       IN  IF r.st = "step" THEN Norm(r.t, env, active \cup {t}, fuel - 1)
+       IN  IF r.st = "step" THEN Norm(r.t, env, active, chain \cup {t}, fuel - 1)
            ELSE (IF r.st = "normal" THEN {} ELSE {r.st})
-                \cup UNION { UNION { Norm(t.ar[j][q], env, active \cup {t}, fuel - 1) : q \in 1..Len(t.ar[j]) }
+                \cup UNION { UNION { Norm(t.ar[j][q], env, active \cup chain \cup {t}, {}, fuel - 1) : q \in 1..Len(t.ar[j]) }
                              : j \in 1..Len(t.ar) }
 
 \* the macro-free form (only asked when Norm is empty)
@@ -217,12 +227,9 @@ NF(t, env, fuel) ==
 RECURSIVE AtomsOf(_)
 AtomsOf(t) == {t.hd} \cup UNION { UNION { AtomsOf(t.ar[j][q]) : q \in 1..Len(t.ar[j]) } : j \in 1..Len(t.ar) }
 
-VerdictsIn(env) == LET v == Norm(use, env, {}, Fuel)
+VerdictsIn(env) == LET v == Norm(use, env, {}, {}, Fuel)
                    IN  IF v = {} /\ AtomsOf(NF(use, env, Fuel)) \cap AllMN # {} THEN {"no-meaning"} ELSE v
-Verdicts == IF Twice THEN LET a == VerdictsIn(EnvOf(TRUE))
-                              b == VerdictsIn(EnvOf(FALSE))
-                          IN  (a \cap b) \cup ((a \cup b) \cap {"fuel"})
-            ELSE VerdictsIn(Env)
+Verdicts == IF Twice THEN {"fuel"} ELSE VerdictsIn(Env)
 Cert(v) == v \ {"fuel", "no-meaning"}
 
 CertNames == << "mac-circular", "mac-argc", "mac-improper" >>
@@ -243,15 +250,29 @@ GraphLawOn(v) == (FirstOrder /\ ~Twice /\ v \cap {"fuel", "mac-argc", "mac-impro
 \* a certificate is never issued for a use that mentions no visible macro at all
 NeedsMacroOn(v) == Cert(v) # {} => AtomsOf(use) \cap EnvNames # {}
 
+\* Feature (implementation-shaped, for the keys of findings only): some term of the text -- the use or a body, the
+\* compiler expands a body when it is defined -- has a circular expansion although no cycle of the definition graph
+\* is reachable from it: the circle goes through a parameter that is applied (f(x) ==> x(x), f(f)).
+AllNames == {Defs[i].nm : i \in 1..N}
+EnvAll == [nm \in AllNames |-> LET I == {i \in 1..N : Defs[i].nm = nm} IN Defs[CHOOSE i \in I : \A i2 \in I : i2 <= i]]
+RefsAll(t) == AtomsOf(t) \cap AllNames
+RECURSIVE ReachAll(_, _)
+ReachAll(S, k) == IF k = 0 THEN S ELSE ReachAll(S \cup UNION {RefsAll(EnvAll[m].body) : m \in S}, k - 1)
+CycleFrom(t) == \E m \in ReachAll(RefsAll(t), 4) : m \in ReachAll(RefsAll(EnvAll[m].body), 4)
+HoCircular == \E t \in {use} \cup {Defs[i].body : i \in 1..N} :
+                 "mac-circular" \in Norm(t, EnvAll, {}, {}, Fuel) /\ ~CycleFrom(t)
+
 \* one evaluation of the verdicts per selected program: the export and the two laws
 Exported ==
   Selected =>
      LET v == Verdicts
      IN  /\ Export => PrintT("MAC " \o ToJson([defs |-> Defs, use |-> use, scope |-> Scope, vis |-> Vis,
+                                                blk |-> IF Block THEN 1 ELSE 0,
                                                 c |-> ToSeq(Cert(v)),
                                                 t |-> IF "no-meaning" \in v THEN << "no-meaning" >> ELSE << >>,
                                                 u |-> IF "fuel" \in v THEN 1 ELSE 0,
-                                                g |-> IF GraphCycle THEN 1 ELSE 0, h |-> H1]))
-         /\ Assert(GraphLawOn(v), << "GraphLaw", ds, use, rot >>)
-         /\ Assert(NeedsMacroOn(v), << "CertNeedsMacro", ds, use, rot >>)
+                                                g |-> IF GraphCycle THEN 1 ELSE 0, h |-> H1,
+                                                f |-> IF HoCircular THEN << "circular-not-in-graph" >> ELSE << >>]))
+         /\ Assert(GraphLawOn(v), << "GraphLaw", ds, use, rot, vm >>)
+         /\ Assert(NeedsMacroOn(v), << "CertNeedsMacro", ds, use, rot, vm >>)
 =============================================================================
